@@ -809,7 +809,7 @@ def run(chk):
 
     # ------------------------------------------------------------------ (i) melody Viterbi, integer tables
     rng = chk.subrng('vit-mel-int')
-    for i in range(chk.n(1500, 30000)):
+    for i in range(chk.n(1500, 50000)):
         P = rng.choice([1, 1, 2, 2, 3, 4, 6])
         T = rng.choice([1, 2, 2, 3, 4, 5, 8, 12])
         n = 2 * P + 1
@@ -840,7 +840,7 @@ def run(chk):
     lap('vit-mel-int')
     # ------------------------------------------------------------------ (i) key-chord Viterbi, small patched state space
     rng = chk.subrng('vit-kc-int')
-    for i in range(chk.n(400, 5000)):
+    for i in range(chk.n(400, 8000)):
         C = rng.choice([1, 2, 2, 3, 3, 5, 6])
         T = rng.choice([1, 2, 2, 3, 4, 6, 9])
         n = 12 * C
@@ -889,7 +889,7 @@ def run(chk):
     lap('vit-kc-int')
     # ------------------------------------------------------------------ (i) key-chord Viterbi, real dimensions, seeded table
     rng = chk.subrng('vit-kc-real')
-    for i in range(chk.n(6, 60)):
+    for i in range(chk.n(6, 100)):
         T = rng.choice([1, 2, 3, 4, 6])
         n = 12 * C0
         seed, lo, hi, pinf = rng.randrange(1, 2 ** 40), -rng.choice([1, 2, 5, 50]), 0, rng.choice([0, 0, 10, 40])
@@ -920,7 +920,7 @@ def run(chk):
     by_tr = {}      # parameter set -> current group index
     tr_groups = []  # [(tr array, [lines], [meta])]
     max_rel = 0.0
-    for i in range(chk.n(60, 1200)):
+    for i in range(chk.n(60, 2000)):
         d, hist = gen_chord_case(rng, nparams)
         res = run_chords(d, cache)
         o = oracle_chords(np, d, res)
@@ -990,7 +990,7 @@ def run(chk):
     # ------------------------------------------------------------------ (ii)+(iii) melody end to end + note frames
     rng = chk.subrng('melody-e2e')
     rng_z = chk.subrng('melody-zero-length-at-end')
-    n_main = chk.n(400, 12000)
+    n_main = chk.n(400, 20000)
     for i in range(n_main + chk.n(20, 300)):
         if i < n_main:
             d, hist = gen_melody_case(rng)
